@@ -135,7 +135,7 @@ GEN_GROUPS = {   # group -> (groups it builds on, proof files, theorems whose `P
     "mtu": ([], ["GenP_mtu.v"], ["gen_should_fingerprint_eq", "gen_valid_for_mtu_fingerprint_eq", "gen_mtu_from_mss_eq", "gen_mtu_from_mss_reject", "gen_mtu_signatures_match_eq",
                                  "gen_find_mtu_match_eq", "gen_impersonate_mtu_eq", "C08_translated_roundtrip", "C08_translated_untouched"]),
     "options": ([], ["GenOptP.v"], ["gen_parse_options_eq", "gen_parse_options_terminates"]),
-    "http": ([], ["GenP_http.v", "GenHdrP.v"], ["gen_find_http_match_eq", "gen_software_eq", "gen_dishonest_eq", "gen_headers_match_eq"]),
+    "http": ([], ["GenP_http.v", "GenHdrP.v"], ["gen_find_http_match_eq", "gen_software_eq", "gen_dishonest_eq", "gen_headers_match_eq", "gen_http_signatures_match_eq", "gen_rec_matches_eq"]),
 }
 GEN_MODEL_FILES = ["Model/Prelude.v", "Model/Bits.v", "Model/Sig.v", "Model/Matcher.v", "Model/Select.v", "Model/Uptime.v", "Model/Mtu.v", "Model/Options.v", "Model/Text.v",
                    "Model/SigParse.v", "Model/DbParse.v", "Model/HttpRead.v", "Model/HttpMatch.v", "Proofs/BitsP.v", "Proofs/OptionsP.v", "Proofs/MtuP.v", "Gen/GenLib.v"]
